@@ -13,6 +13,7 @@ import (
 	"cmp"
 	"fmt"
 	"math/bits"
+	"os"
 	"slices"
 	"sort"
 	"strings"
@@ -240,6 +241,76 @@ func genC03Sub(t *rapid.T) c03Sub {
 }
 
 var kC03Sub = register(&Kind[c03Sub]{Prop: "C03", Name: "substitute", Gen: genC03Sub, Eval: evalC03Sub})
+
+// ---- concurrent decoding of a valid string and corrupted copies with the same prefix ----------
+
+func evalC03Conc(c c03Sub, o *Obs) error {
+	valid, start := c03Valid(c)
+	if !c03ImplAccepts(c.Codec, valid) {
+		return nil
+	}
+	plen := len(valid) - start
+	var corrupt []string
+	for k := 0; k+1 < len(c.Pos) || k == 0; k++ { // several corrupted copies, 1..2 substitutions each
+		b := []byte(valid)
+		n := 0
+		for i := k; i < len(c.Pos) && i < len(c.Chars) && n < 2; i++ {
+			pos := start + ((c.Pos[i]%plen)+plen)%plen
+			ch := c.Chars[i]
+			if symbolOf(ch) < 0 || symbolOf(ch) == symbolOf(valid[pos]) {
+				ch = b32Charset[(symbolOf(valid[pos])+1+i)%32]
+				if c.Upper {
+					ch = asciiUpper(string(ch))[0]
+				}
+			}
+			b[pos] = ch
+			n++
+		}
+		if s := string(b); s != valid && !c03ImplAccepts(c.Codec, s) {
+			corrupt = append(corrupt, s)
+		}
+		if len(corrupt) >= 3 {
+			break
+		}
+	}
+	if len(corrupt) == 0 {
+		return nil
+	}
+	o.NT()
+	o.Class("C03:concurrent-" + c.Codec)
+	loops := 300
+	if os.Getenv("VERIF_REPLAY") != "" {
+		loops = 20000
+	}
+	errs := make(chan error, len(corrupt)+1)
+	var wg sync.WaitGroup
+	begin := make(chan struct{})
+	run := func(s string, wantOK bool) {
+		defer wg.Done()
+		<-begin
+		for i := 0; i < loops; i++ {
+			if got := c03ImplAccepts(c.Codec, s); got != wantOK {
+				errs <- fmt.Errorf("%s decoder: %q accepted=%v while %q and its corrupted copies are decoded concurrently (alone: %v)", c.Codec, s, got, valid, wantOK)
+				return
+			}
+		}
+	}
+	wg.Add(1 + len(corrupt))
+	go run(valid, true)
+	for _, s := range corrupt {
+		go run(s, false)
+	}
+	close(begin)
+	wg.Wait()
+	select {
+	case err := <-errs:
+		return err
+	default:
+	}
+	return nil
+}
+
+var kC03Conc = register(&Kind[c03Sub]{Prop: "C03", Name: "concurrent", Gen: genC03Sub, Eval: evalC03Conc})
 
 // ---- step 1: affine linearity of the remainder --------------------------------------
 
@@ -812,6 +883,7 @@ func TestC03(t *testing.T) {
 		kC03Lin.Run(t, ev, perShard(pick(4000, 400000)))
 		t1 := time.Now()
 		kC03Sub.Run(t, ev, perShard(pick(3000, 300000)))
+		kC03Conc.Run(t, ev, perShard(pick(300, 20000)))
 		t2 := time.Now()
 		if len(ev.violations) > 0 || shard != 0 {
 			return // the enumeration is not seed-dependent: shard 0 runs it on all cores
